@@ -348,7 +348,7 @@ def select__child_path(self: XPathToken, context: ta.ContextType = None) \
     else:
         items: set[ta.ItemType] = set()
         results: list[ta.ItemType] = []
-        for _ in self[0].select_with_focus(context):
+        for _ in self[0].select_with_focus(context, forward=True):
             if not isinstance(context.item, XPathNode):
                 msg = f"Intermediate step contains an atomic value {context.item!r}"
                 raise self.error('XPTY0019', msg)
@@ -380,7 +380,7 @@ def select__descendant_path(self: XPathToken, context: ta.ContextType = None) \
     elif len(self) == 2:
         items: set[ta.ItemType] = set()
         results: list[ta.ItemType] = []
-        for _ in self[0].select_with_focus(context):
+        for _ in self[0].select_with_focus(context, forward=True):
             if not isinstance(context.item, XPathNode):
                 raise self.error('XPTY0019')
 
